@@ -1044,6 +1044,32 @@ theorem quiescent_nothing_ready (s : St) (hr : Reach s) (hl : s.lpc = .running) 
           exact ⟨hfd, hrd⟩
         rw [hew] at this; simp at this
 
+/-- **never deadlocks with work to do**: in a reachable state with the loop thread between callbacks (no wake owed,
+not closing), a registered readable user fd (or a registered writable fd) always leaves some step enabled — a step of
+the selector thread, or the loop running the queued `_handle_select`. -/
+theorem ready_fd_forces_progress (s : St) (hr : Reach s) (hl : s.lpc = .running) (hp : s.pendingWake = false)
+    (hc : s.closingFlag = false)
+    (hready : (∃ fd ∈ s.readers, fd ≠ waker ∧ s.readyR.contains fd = true) ∨
+              (∃ fd ∈ s.writers, s.readyW.contains fd = true)) :
+    (∃ ev s', ev.isS = true ∧ step s ev = some s') ∨ (∃ res s', step s (.handleBegin res) = some s') := by
+  cases hq : s.queue with
+  | cons q rest =>
+    right
+    exact ⟨q, { s with queue := rest, lpc := .handling q.r q.w }, by simp [step, hq, lFree, hl, hp]⟩
+  | nil =>
+    left
+    apply Classical.byContradiction
+    intro hno
+    have hS : ∀ ev, ev.isS = true → step s ev = none := by
+      intro ev hev
+      cases hst : step s ev with
+      | none => rfl
+      | some s' => exact absurd ⟨ev, s', hev, hst⟩ hno
+    obtain ⟨hR, hW⟩ := quiescent_nothing_ready s hr hl hp hc hS hq
+    rcases hready with ⟨fd, hfd, hne, hrd⟩ | ⟨fd, hfd, hrd⟩
+    · rw [hR fd hfd hne] at hrd; exact absurd hrd (by simp)
+    · rw [hW fd hfd] at hrd; exact absurd hrd (by simp)
+
 /-- stretch goal (not proved; covered by the tie's settle-phase oracle): under weak fairness of both threads an fd
 that stays registered and ready is dispatched within two token rounds. -/
 def no_lost_event_goal : Prop :=
